@@ -306,7 +306,7 @@ func TestC18_Wire(t *testing.T) {
 	var cases []*peCase
 	if ev.Replay() == "" {
 		for k := 0; k < n; k++ {
-			cases = append(cases, gen.Example(int(ev.Seed())+k*7919))
+			cases = append(cases, gen.Example(int(ev.Seed())+k*15485863))
 		}
 	}
 	runParallel(t, r, cases, evalC18Wire)
@@ -465,7 +465,7 @@ func TestC18_Argv(t *testing.T) {
 	var cases []*c18ArgvCase
 	if ev.Replay() == "" {
 		for k := 0; k < n; k++ {
-			cases = append(cases, gen.Example(int(ev.Seed())+k*7919))
+			cases = append(cases, gen.Example(int(ev.Seed())+k*15485863))
 		}
 	}
 	runParallel(t, r, cases, evalC18Argv)
